@@ -355,7 +355,7 @@ def _alarm(signum, frame):
 
 ANSI = re.compile(r"\x1b\[[0-9;]*m")
 CITE = re.compile(r"\[([^\[\]:/]+\.fcp):(-?\d+)\]")
-ECHO = re.compile(r"^(-?\d+) \| (.*)$")
+ECHO = re.compile(r"^(-?\d+) \|(?: (.*))?$")        # "<n> | <text>"; an empty source line is echoed as "<n> |"
 
 
 class Parser:
@@ -416,6 +416,21 @@ class Parser:
         return ANSI.sub("", text), None
 
 
+def _squash(x: str) -> str:
+    return "".join(ch for ch in x.replace("\ufeff", "") if not ch.isspace())
+
+
+def _same_line(source_line: str, echoed: str) -> bool:
+    """The echo shows line n: exactly, or as a renderer may display it (BOM / CR dropped, tabs expanded, a long
+    line clipped, possibly with an ellipsis). The property only demands that the cited line exists; the echo check is
+    an extra of this harness and is kept tolerant of display normalisation."""
+    a, full = _squash(source_line), _squash(echoed)
+    if a == full:
+        return True
+    b = _squash(echoed.rstrip(".\u2026"))         # a clipped line may end in an ellipsis
+    return a == b or (len(b) >= 24 and a.startswith(b))
+
+
 def check_citations(text, sources):
     """sources: {basename: [file texts with that base name]}. Returns list of (kind, message)."""
     probs = []
@@ -440,12 +455,12 @@ def check_citations(text, sources):
                     break
                 e = ECHO.match(lines[j].strip())
                 if e:
-                    echoes.append((int(e.group(1)), e.group(2)))
+                    echoes.append((int(e.group(1)), e.group(2) or ""))
             if echoes:
                 mine = [t for en, t in echoes if en == n]
                 if not mine:
                     probs.append(("echo_line_number_differs", f"cites [{name}:{n}] but echoes line(s) {[en for en, _ in echoes]}"))
-                elif not any(c.split("\n")[n - 1] == t or c.split("\n")[n - 1].rstrip() == t.rstrip() for c in fits for t in mine):
+                elif not any(_same_line(c.split("\n")[n - 1], t) for c in fits for t in mine):
                     probs.append(("echo_text_differs", f"[{name}:{n}] echoes {mine[0][:60]!r}, line {n} of {name} is "
                                                        f"{[c.split(chr(10))[n - 1][:60] for c in fits]}"))
     return probs
